@@ -7,6 +7,7 @@ mod s_matrix;
 mod gen;
 mod s_perceive;
 mod s_ff;
+mod s_sd;
 
 fn main() {
     let args: Vec<String> = std::env::args().collect();
@@ -35,6 +36,7 @@ fn main() {
         "matrix" => s_matrix::run(&mut out, seed, &tier),
         "perceive" => s_perceive::run(&mut out, seed, &tier),
         "ff" => s_ff::run(&mut out, seed, &tier),
+        "sd" => s_sd::run(&mut out, seed, &tier),
         other => { eprintln!("unknown stream {}", other); std::process::exit(2); }
     }
     let _ = rest;
